@@ -110,13 +110,13 @@ impl Interpreter {
                 state.stack.push_bytes(a);
             }
             OpCodes::OP_IFDUP => {
+                let top_data = match state.stack.last().cloned() {
+                    Some(v) => v,
+                    None => return Err(InterpreterError::EmptyStack),
+                };
                 let predicate = state.stack.pop_bool()?;
+                state.stack.push(top_data.clone());
                 if predicate {
-                    let top_data = match state.stack.last().cloned() {
-                        Some(v) => v,
-                        None => return Err(InterpreterError::EmptyStack),
-                    };
-
                     state.stack.push(top_data);
                 }
             }
